@@ -7,29 +7,36 @@ import threading
 from .common import VERIF, ToolError, log
 
 EXEC_DIR = os.path.join(VERIF, "executor")
-BIN = os.path.join(EXEC_DIR, "target", "release", "hpke-exec")
-_built = False
+_built = set()
 
 
-def build(force=False):
-    """(Re)build the executor; cargo's own change detection picks up edits under /repo."""
-    global _built
-    if _built and not force:
+def bin_of(profile):
+    return os.path.join(EXEC_DIR, "target", profile, "hpke-exec")
+
+
+BIN = bin_of("release")
+
+
+def build(force=False, profile="release"):
+    """(Re)build the executor; cargo's own change detection picks up edits under /repo.  Profile "plain" is the same
+    program without debug assertions and overflow checks (see executor/Cargo.toml)."""
+    if profile in _built and not force:
         return
     env = dict(os.environ, CARGO_NET_OFFLINE="true")
-    p = subprocess.run(["cargo", "build", "--release", "--offline"], cwd=EXEC_DIR, env=env,
+    p = subprocess.run(["cargo", "build", "--profile", profile, "--offline"], cwd=EXEC_DIR, env=env,
                        stdout=subprocess.PIPE, stderr=subprocess.STDOUT, text=True)
     if p.returncode != 0:
         raise ToolError("executor does not build against the current tree:\n" + p.stdout[-4000:])
-    _built = True
+    _built.add(profile)
 
 
 class Executor:
     """one hpke-exec process, used interactively (one command -> one event)"""
 
-    def __init__(self):
-        build()
-        self.p = subprocess.Popen([BIN], stdin=subprocess.PIPE, stdout=subprocess.PIPE, text=True, bufsize=1,
+    def __init__(self, profile="release"):
+        build(profile=profile)
+        self.profile = profile
+        self.p = subprocess.Popen([bin_of(profile)], stdin=subprocess.PIPE, stdout=subprocess.PIPE, text=True, bufsize=1,
                                   env=dict(os.environ, HPKE_EXEC_FLUSH="1"))
         self.n = 0
         # every command of this process, on disk: lets a mismatch that depends on the process's HISTORY be re-created
